@@ -31,7 +31,7 @@ REPO = os.environ.get('VERIF_REPO', '/repo')
 
 def real_profile():
     # nested recurrent destinations count attempts per process: not meaningful across pool workers
-    return gen.profile(n_max=8, p_fail=0.15, p_retry=0.2, p_rec_nested=0.0)
+    return gen.profile(n_max=8, p_fail=0.15, p_retry=0.2, p_rec_nested=0.0, p_falsy_ad=0.0)
 
 
 def simplify_for_real(prog):
@@ -41,6 +41,11 @@ def simplify_for_real(prog):
         f = (n.get('plan') or {}).get('fail')
         if f and f[0] != 'ALWAYS':
             n['plan']['fail'] = ['ALWAYS', f[0] or 'E1']
+        f = (n.get('plan') or {}).get('fail')
+        if f and f[1] == 'EFalsy':
+            # concurrent.futures.process delivers a falsy exception instance as a None *result*
+            # (`if result_item.exception:` in CPython) - not the engine's concern
+            n['plan']['fail'] = ['ALWAYS', 'EOther']
         r = n.get('retry')
         if r and r.get('delay'):
             r['delay'] = 0.001
